@@ -111,9 +111,12 @@ print("RESULTS " + json.dumps(results))
         process = subprocess.run(["/venv/bin/python", script], stdout=subprocess.PIPE, stderr=subprocess.STDOUT,
                                  universal_newlines=True, env=env, cwd=folder)
         lines = [line for line in process.stdout.splitlines() if line.startswith("RESULTS ")]
+        problems = [line[len("PLUGINPROBLEM "):] for line in process.stdout.splitlines() if line.startswith("PLUGINPROBLEM ")]
+        if (process.returncode != 0 or not lines) and problems:
+            # what the probes found can make everything after them fail (no CID can be read at all): report the probes
+            return [], [], problems + ["the replay of the histories then failed: %s" % process.stdout.strip().splitlines()[-1][:300]]
         if process.returncode != 0 or not lines:
             raise core.MachineryError("plugin subprocess failed: %s" % process.stdout[-1500:])
-        problems = [line[len("PLUGINPROBLEM "):] for line in process.stdout.splitlines() if line.startswith("PLUGINPROBLEM ")]
         return sample, json.loads(lines[0][len("RESULTS "):]), problems
     finally:
         core.cleanup(folder)
